@@ -7,6 +7,21 @@ TB = ("Coq 8.16.1 kernel; axioms as printed by Print Assumptions (allow-list in 
       "tied to /repo only by that correspondence (DESIGN.md section 8)")
 
 CHECKS = {
+ "C21": dict(
+   text="Machine-checked theorems about the model of src/rule_reader.rs (after six repairs): for every list of rule "
+        "texts that each contain exactly one rule end - a period outside ( ) [ ] and quotes that is not a decimal point "
+        "- as their last character and no comment delimiter outside ( ) [ ] and quotes, and every layout that breaks "
+        "lines only after - , ; = outside quotes, with any indentation, blank lines and # % // comments outside brackets, "
+        "read_facts_and_rules returns exactly the texts with one space at each line break (never an error, never another "
+        "list), load_kb_from_file is parse_rule + add_rules over those texts in order (over the original texts for every "
+        "parser when each break stands before a single space), no reader function panics on any input, and "
+        "separate_rules only ever cuts its input into consecutive pieces. parse_rule is a parameter of the model; that "
+        "the loaded rules equal the rules parsed one by one is checked on the implementation itself on every generated "
+        "file. Texts with backslash-escaped brackets or brackets between quotes are outside the claim (known finding).",
+   ref="7/C21",
+   technique="Coq proof of model vs SpecLoad.render/expected (Properties/C21.v) + model-vs-implementation correspondence "
+             "via extraction + implementation-only oracle load_kb_from_file = parse_rule each"),
+
  "C01": dict(
    text="PARTIAL proof. The reference is a compositional trace semantics written in Coq (Spec/SpecSolve.v: events and "
         "terminals; no nodes, flags or resumption); the full statement - draining a query's node yields the reference answers, "
@@ -177,6 +192,6 @@ def main():
     with open(os.path.join(VERIF, "MANIFEST.json"), "w") as f:
         json.dump(m, f, indent=1)
 
-HOOK_COMMITS = ["688dc2a", "b29e872"]
+HOOK_COMMITS = ["688dc2a", "b29e872", "43aafa9", "7e70c35"]
 if __name__ == "__main__":
     main()
